@@ -21,8 +21,10 @@ def harness(ctx, cfg):
     via_builder = cfg.get("via_builder", False)
     dt = np.dtype(cfg.get("dtype", "int64"))
     IDLO = cfg.get("idlo", 0)
-    seg = SArr.fresh("c", (T, P), dt)
-    inp = seg.c.copy()
+    with_pos = cfg.get("with_pos", False)
+    # (with loaded positions the importer insists on time + two spatial axes: T x 1 x P)
+    seg = SArr.fresh("c", (T, 1, P) if with_pos else (T, P), dt)
+    inp = seg.c.copy().reshape(T, P)
     for x in inp.flat:
         ctx.add(x >= 0)
         if dt.itemsize < 8:
@@ -57,19 +59,33 @@ def harness(ctx, cfg):
     ctx.env.update(identity_mapping=identity, via_builder=via_builder)
     g = nx.DiGraph()
     g.add_nodes_from(cn)
+    cp = None
+    if with_pos:
+        # positions are loaded from the source too (the importer then validates graph against segmentation):
+        # every node sits on a pixel of its own mask
+        cp = [ctx.choose(P, f"pos{i}") for i in range(n)]
+        for i in range(n):
+            ctx.add(inp[ct[i], cp[i]] == cs[i])
+            g.nodes[cn[i]].update(time=ct[i], pos=[0.0, float(cp[i])], seg_id=cs[i])
+        if not ctx.feasible():
+            raise PathAbort()
+    ctx.input("positions", cp)
     try:
         if via_builder:
             b = object.__new__(_Builder)
-            b.ndim = 2
+            b.ndim = 3 if with_pos else 2
             b.in_memory_geff = {"node_ids": np.array(cn), "node_props": {
                 "seg_id": {"values": np.array(cs), "missing": None},
                 "time": {"values": np.array(ct), "missing": None}}}
-            old = tb.load_segmentation
+            import funtracks.import_export._validation as va
+
+            old, old_has = tb.load_segmentation, va.has_seg_ids_at_coords
             tb.load_segmentation = lambda s: s  # the array is already in memory (no dask wrapping of a model)
+            va.has_seg_ids_at_coords = _has_seg_ids_at_coords
             try:
                 out, scale = b.handle_segmentation(g, seg, None)
             finally:
-                tb.load_segmentation = old
+                tb.load_segmentation, va.has_seg_ids_at_coords = old, old_has
             ctx.tag("shortcut" if identity else "relabelled")
         else:
             out = relabel_segmentation(seg, g, np.array(cn), np.array(cs), np.array(ct))
@@ -90,15 +106,31 @@ def harness(ctx, cfg):
     ctx.tag("shifted" if shift else "unshifted")
     ctx.oblige("C13.graph_ids_shift_with_array", sorted(g.nodes) == sorted(c + shift for c in cn), "C13")
     obl = []
+    outc = out.c.reshape(T, P)
     for t in range(T):
         for p in range(P):
             want = z3.IntVal(0)
             for i in range(n):
                 if ct[i] == t:
                     want = If(inp[t, p] == cs[i], z3.IntVal(cn[i] + shift), want)
-            obl.append(out.c[t, p] == want)
+            obl.append(outc[t, p] == want)
     ctx.oblige("C13.pixel_exact", And(obl), "C13")
     ctx.oblige("C13.input_untouched", all(z3.eq(a, b) for a, b in zip(seg.c.flat, inp.flat)) or out is seg, "C13")
+    ctx.oblige("C13.shape_kept", tuple(out.c.shape) == tuple(seg.c.shape), "C13")
+
+
+def _has_seg_ids_at_coords(segmentation, coords, seg_ids, scale=None):
+    """contract stub of geff.validate.segmentation.has_seg_ids_at_coords (its np.asanyarray would realise the
+    symbolic array): true iff the cell at every scaled coordinate holds the given seg id"""
+    if scale is None:
+        scale = [1.0] * segmentation.ndim
+    for coord, seg_id in zip(coords, seg_ids):
+        idx = tuple(int(c * s) for c, s in zip(coord, scale))
+        if any(not (0 <= k < d) for k, d in zip(idx, segmentation.shape)):
+            return False, ["out of bounds"]
+        if segmentation[idx] != seg_id:
+            return False, []
+    return True, []
 
 
 class _Builder(tb.TracksBuilder):
@@ -116,10 +148,15 @@ def replay(f):
     before = arr.copy()
     g = nx.DiGraph()
     g.add_nodes_from(cn)
+    if inp.get("positions"):
+        arr = arr.reshape(arr.shape[0], 1, arr.shape[1])
+        before = arr.copy()
+        for i in range(len(cn)):
+            g.nodes[cn[i]].update(time=ct[i], pos=[0.0, float(inp["positions"][i])], seg_id=cs[i])
     try:
         if inp["via_builder"]:
             b = object.__new__(_Builder)
-            b.ndim = 2
+            b.ndim = 3 if inp.get("positions") else 2
             b.in_memory_geff = {"node_ids": np.array(cn), "node_props": {
                 "seg_id": {"values": np.array(cs), "missing": None},
                 "time": {"values": np.array(ct), "missing": None}}}
@@ -139,6 +176,10 @@ def replay(f):
     ob = f["obligation"]
     if ob == "C13.input_untouched":
         return (not np.array_equal(arr, before)), detail
+    if ob == "C13.shape_kept":
+        return out.shape != before.shape, detail
+    if inp.get("positions"):
+        out, before = out.reshape(out.shape[0], -1), before.reshape(before.shape[0], -1)
     if ob == "C13.graph_ids_shift_with_array":
         want_shift = 0 if (inp["via_builder"] and cn == cs) else shift
         return sorted(g.nodes) != sorted(c + want_shift for c in cn), detail
